@@ -11,7 +11,8 @@ pub struct ClassPlan { pub name: &'static str, pub n: u64 }
 pub fn make_case(class: &str, seed: u64, case_no: u64) -> Case {
   let mut rng = Rng::derive(seed ^ util::Fnv::default().0.wrapping_add(class.len() as u64 * 7919 + class.bytes().map(|b| b as u64).sum::<u64>()), case_no);
   let exact = class.contains("exact") || (class.contains("any") && rng.chance(2, 5));
-  let o = GenOpts { max_tasks: if rng.chance(1, 4) { 10 } else { 6 }, exact_only: exact, max_ops: 5 };
+  let big = rng.chance(1, 10);
+  let o = GenOpts { max_tasks: if big { 16 } else if rng.chance(1, 4) { 10 } else { 6 }, exact_only: exact, max_ops: if big { 7 } else { 5 } };
   let prog = gen::gen_program(&mut rng, &o);
   let init = gen::gen_init(&mut rng, &prog);
   let hc = if class.starts_with("td") { HistClass::TopDown } else if class.starts_with("pure") { HistClass::PureBottomUp } else { HistClass::Mixed };
